@@ -141,12 +141,13 @@ def check_phase(res, spec, obs, ph, ta=25.0, want=("C01", "C02", "C04"), d=None,
                 # solver tolerance: currents are converged to 1e-8 A absolute -> powers to ~1e-8 A x |V|
                 if not close(P - L, abs(vout) * iout, 1e-4, 5e-8 * max(1.0, abs(vin), abs(vout))):
                     res.v(("C02.balance", k, *tags), "%s P-L %r but |Vout|*Iout %r" % (name, P - L, abs(vout) * iout))
-                if L < -1e-12 or L > P * (1 + 1e-9) + 1e-12:
+                ptol = 5e-8 * max(1.0, abs(vin), abs(vout))  # same solver-tolerance allowance as the balance (a loss-free switch shows Vin/Vout of successive sweeps)
+                if L < -ptol or L > P * (1 + 1e-9) + ptol:
                     res.v(("C02.loss-range", k, *tags), "%s Loss %r Power %r" % (name, L, P))
                 if P > 0:
                     if not close(E, 100.0 * (P - L) / P, 1e-9, 1e-9):
                         res.v(("C02.eff", k, *tags), "%s Eff %r but 100(P-L)/P %r" % (name, E, 100.0 * (P - L) / P))
-                    if not (-1e-9 <= E <= 100.0 + 1e-9):
+                    if not (-1e-9 - 100.0 * ptol / P <= E <= 100.0 + 1e-9 + 100.0 * ptol / P):
                         res.v(("C02.eff-range", k, *tags), "%s Eff %r" % (name, E))
                 ploss += L
                 if L > 0:
